@@ -117,3 +117,16 @@ def jsonable(o):
     if o is None or isinstance(o, (bool, int, float, str)):
         return o
     return jdefault(o)
+
+
+def guard(res, label, fn, *args):
+    """run one stream of a check; if the *implementation* makes the adapter itself fail (an operation of the stream raises where the
+    unchanged library never does) the results gathered so far are kept and the failure is recorded as a broken correspondence"""
+    try:
+        fn(*args)
+    except Exception as e:  # noqa
+        if type(e).__name__ == "InfraError":
+            raise
+        import traceback
+        res.disagree("%s.adapter-exception:%s" % (label, getattr(fn, "__name__", "stream")),
+                     {"trace": traceback.format_exc().splitlines()[-8:]}, impl="%s: %s" % (type(e).__name__, e), model=None)
